@@ -8,7 +8,7 @@
    CBook  : a layering of kustomizations (namespace / namePrefix / nameSuffix per layer, resources,
             generated resources, bases) and the content hashes
             vs. identity + rename history of every resource just before FixBackReferences. *)
-From KV Require Export Res.NameRef Res.Rename Gen.NameRefRules Gen.FieldSpecs.
+From KV Require Export Res.NameRef Res.NameRefResolved Res.Rename Gen.NameRefRules Gen.FieldSpecs.
 From KV Require Import Corr.C14.   (* oclass_eqb, mism_from *)
 
 (* identity and rename history of one resource *)
@@ -29,6 +29,10 @@ Inductive case03 :=
 | CRef (cluster_scoped : list (string * string)) (nonstr : list string)
        (before : list resource) (cls : oclass) (after : list (option node))
          (* None = the document is unchanged *)
+| CRefR (cluster_scoped : list (string * string)) (nonstr : list string)
+        (before : list resource) (cls : oclass) (after : list (option node))
+         (* the same observation on a tree that carries the repair nameref.ResolvedFields
+            (the harness detects the field Filter.Resolved): compared with Res/NameRefResolved.v *)
 | CBook (cluster_scoped : list (string * string)) (nonstr : list string)
         (l : layer) (hashes : list string) (cls : oclass) (expected : list book).
 
@@ -78,6 +82,11 @@ Definition run_ref (csl : list (string * string)) (nonstr : list string) (m : li
   do rules <- default_rules;
   nameref_transform (cs_of csl) (fun s => str_in s nonstr) rules m.
 
+Definition run_ref_r (csl : list (string * string)) (nonstr : list string) (m : list resource)
+  : res (list resource) :=
+  do rules <- default_rules;
+  nameref_transform_r (cs_of csl) (fun s => str_in s nonstr) rules m.
+
 Definition run_book (csl : list (string * string)) (nonstr : list string) (l : layer) (hs : list string)
   : res (list resource) :=
   build_names (cs_of csl) (fun s => str_in s nonstr)
@@ -101,6 +110,11 @@ Definition agree03 (c : case03) : bool :=
       end
   | CRef csl ns m cls after =>
       match run_ref csl ns m with
+      | Ok m' => oclass_eqb cls COk && after_eqb (map r_node m) (map r_node m') after
+      | r => oclass_eqb cls (class_of r)
+      end
+  | CRefR csl ns m cls after =>
+      match run_ref_r csl ns m with
       | Ok m' => oclass_eqb cls COk && after_eqb (map r_node m) (map r_node m') after
       | r => oclass_eqb cls (class_of r)
       end
